@@ -100,6 +100,7 @@ type chainCheckDef struct {
 	// moreEnvs: further environments explored at depth envDepth (both tiers)
 	moreEnvs []EnvCfg
 	envDepth int
+	envMenu  func() []BlockSpec // menu of the special environments (default: menu)
 }
 
 func registerChainCheck(d chainCheckDef) {
@@ -115,13 +116,17 @@ func registerChainCheck(d chainCheckDef) {
 			c.Assume("the chain starts right above height 80000 (empty multistore continued from that version) so that every height-gated mainnet patch is active; one warm-up block stakes the two nodes with output address / reward delegators; the thorough tier adds an environment in which all named features activate inside the explored history")
 			c.Assume("each replica runs in a worker process with all process-globals reset; MemDB stands in for goleveldb")
 			done := ""
-			for i, env := range envs {
-				cfg := &chainCfg{Name: fmt.Sprintf("%s-env%d", d.name, i), Env: env, Menu: d.menu(), Depth: depth, Want: d.want}
+			for i, env := range d.moreEnvs { // the special environments first: they are shallow and must not be cut off by the budget
+				m := d.menu
+				if d.envMenu != nil {
+					m = d.envMenu
+				}
+				cfg := &chainCfg{Name: fmt.Sprintf("%s-special%d", d.name, i), Env: env, Menu: m(), Depth: d.envDepth, Want: d.want}
 				st := chainExplore(c, cfg)
 				done += chainDone(c, cfg, st)
 			}
-			for i, env := range d.moreEnvs {
-				cfg := &chainCfg{Name: fmt.Sprintf("%s-env%d", d.name, len(envs)+i), Env: env, Menu: d.menu(), Depth: d.envDepth, Want: d.want}
+			for i, env := range envs {
+				cfg := &chainCfg{Name: fmt.Sprintf("%s-env%d", d.name, i), Env: env, Menu: d.menu(), Depth: depth, Want: d.want}
 				st := chainExplore(c, cfg)
 				done += chainDone(c, cfg, st)
 			}
@@ -145,6 +150,13 @@ func crossingEnv() EnvCfg {
 }
 
 func init() {
+	// slow unstaking: nodes stay in the unstaking state for four blocks, so they can be slashed / jailed meanwhile
+	slow := defaultEnv()
+	slow.UnstakingBlocks = 4
+	slow.MaxValidators = 3
+	slashWhileUnstaking := func() []BlockSpec {
+		return []BlockSpec{blk(tx("node_unstake", "N1"), tx("node_unstake", "N2")), blk(tx("node_unstake", "N1")), {Evidence: []string{"N1@-3"}}, {Evidence: []string{"N2@-2"}}, {Absent: []string{"N2"}}, {}}
+	}
 	// genesis without an explicit supply (derived by InitGenesis) and with coin-less accounts among the funded ones
 	derived := defaultEnv()
 	derived.Genesis = "default-supply"
@@ -204,6 +216,7 @@ func init() {
 		extra: func(c *ev.Ctx) {
 			runEvalShards(c, "burns", defaultEnv(), nil, "c19:burns", []map[string]string{{"shard": "0"}})
 		},
+		moreEnvs: []EnvCfg{slow}, envDepth: 5, envMenu: slashWhileUnstaking,
 		menu: func() []BlockSpec { return concatMenus(menuNodes(), menuEnv(), menuSends()[4:5]) },
 		rule: "Invariant: balance of the node staking pool == sum of staked tokens of all nodes that are staked or unstaking, in every reachable state; the same after challenge burns of 12 sizes (below, at and above the stake and the pool) evaluated on the real keeper."})
 	registerChainCheck(chainCheckDef{id: "C20", name: "apppool", want: []string{"apppool"}, depth: [2]int{4, 5},
@@ -211,7 +224,7 @@ func init() {
 			return concatMenus(menuApps(), menuEnv()[:1], menuEnv()[4:5], []BlockSpec{blk(tx("send", "A2", "to", "module:application_staked_tokens_pool", "amount", "3"))})
 		},
 		rule: "Invariant: balance of the application staking pool == sum of staked tokens of all applications that are staked or unstaking, in every reachable state."})
-	registerChainCheck(chainCheckDef{id: "C21", name: "nodeindex", want: []string{"nodeindex"}, depth: [2]int{4, 6},
+	registerChainCheck(chainCheckDef{id: "C21", name: "nodeindex", want: []string{"nodeindex"}, depth: [2]int{4, 6}, moreEnvs: []EnvCfg{slow}, envDepth: 5, envMenu: slashWhileUnstaking,
 		menu: func() []BlockSpec {
 			return []BlockSpec{
 				blk(tx("node_unstake", "N1")), blk(tx("node_unstake", "N2")),
